@@ -214,8 +214,11 @@ def canon_projection(res):
         for k in ("comment", "text", "code", "desc", "payee", "note", "name", "symbol", "format", "path"):
             if k in d and isinstance(d[k], str):
                 d[k] = d[k].strip()
+        # an empty comment ("account a:b  ;") says nothing: present-but-empty and absent are the same content
+        if d.get("comment", None) == "":
+            d.pop("comment")
         if "comments" in d:
-            d["comments"] = [x.strip() for x in d["comments"] or []]
+            d["comments"] = [x.strip() for x in d["comments"] or [] if x.strip()]
         if "amount" in d:
             d["amount"] = [amt(a) for a in d["amount"] or []]
         ps = []
